@@ -51,11 +51,12 @@ def input_defaults(s, fields, r):
 
 class SchemaGen:
     def __init__(self, rng, n_obj=None, n_iface=None, n_union=None, n_enum=None, n_input=None, deprecations=0.0,
-                 id_lists=True, custom_roots=None, odd_type_names=False, args=True, own_deprecation=0.0, decoy_roots=None):
+                 id_lists=True, custom_roots=None, odd_type_names=False, args=True, own_deprecation=0.0, decoy_roots=None, narrowing=0.0):
         self.rng = rng
         self.s = Schema()
         self.fcount = 0
         self.deprecations = deprecations
+        self.narrowing = narrowing   # P(an object's copy of an interface field narrows the type: T -> T!, [T] -> [T!], [T] -> [T]!)
         self.own_deprecation = own_deprecation   # P(an object's copy of an interface field differs from the interface's in deprecation)
         self.id_lists = id_lists
         self.args = args
@@ -166,6 +167,14 @@ class SchemaGen:
         """an implementing object redeclares the interface's field; deprecation is per declaration (legal GraphQL: an
         object may deprecate a field its interface does not, and the other way round, or give another reason)"""
         g = dict(f)
+        if self.narrowing and self.rng.random() < self.narrowing:
+            t = g["type"]
+            if t[0] != "nn":
+                g["type"] = NN(t)
+            elif t[1][0] == "list" and t[1][1][0] != "nn":
+                g["type"] = NN(L(NN(t[1][1])))
+        elif self.narrowing and g["type"][0] == "list" and g["type"][1][0] != "nn" and self.rng.random() < self.narrowing:
+            g["type"] = L(NN(g["type"][1]))
         if self.own_deprecation and self.rng.random() < self.own_deprecation:
             if g.get("deprecated") is None:
                 g["deprecated"] = {"reason": self.rng.choice(DEPRECATION_REASONS), "block": False}
